@@ -44,10 +44,11 @@ def qchars_allowed():
 class C12(Config):
     pid = "C12"
     proof_targets = ["C12/Properties.vo"]
-    corr_targets = ["C12/Corr.vo", "C12/Wf.vo"]
+    corr_targets = ["C12/Corr.vo", "C12/Wf.vo", "C12/Lit.vo"]
     audit_dirs = ["Lib", "Gen", "C12"]
-    header = ("From V.Lib Require Import Base MachInt Hex.\n"
-              "From V.C12 Require Import Model Spec Corr Wf.\n"
+    header = ("From Coq Require Import Uint63.\n"
+              "From V.Lib Require Import Base MachInt Hex.\n"
+              "From V.C12 Require Import Model Spec Lit Corr Wf.\n"
               "Local Open Scope Z_scope.")
     bin = "c12"
     n_tags = 60
